@@ -23,7 +23,7 @@ import networkx as nx
 import numpy as np
 
 from harness import wireutil as wu
-from harness.common import Driver, Result
+from harness.common import Driver, Result, coverage_floor, err_class, impl_guard
 
 LEVEL = "proof"
 TRUSTED_BASE = [
@@ -41,6 +41,12 @@ ASSUMPTIONS = [
 
 TRANS = ["add_emitter_one_qubit_op", "add_photon_one_qubit_op", "replace_photon_one_qubit_op", "replace_emitter_one_qubit_op",
          "add_emitter_cnot", "remove_op", "add_measurement_cnot_and_reset"]
+
+
+def guard(res, stream, **kw):
+    """common.impl_guard for this harness: a circuit with an operation outside the wire model (wu.OutOfModel: parameterised gate, foreign
+    label) produced by a move or a solver is the implementation leaving the modelled domain — a correspondence break, not a harness crash"""
+    return impl_guard(res, stream, also=(wu.OutOfModel,), **kw)
 
 
 # ---------------------------------------------------------------------------------------------------------------- RNG
@@ -79,7 +85,8 @@ class RngPatch:
         self.calls.append(("randint*", (low, high, size), np.asarray(v).tolist()))
         return v
 
-    def choice(self, a, size=None, replace=True, p=None):
+    def choice(self, a, size=None, replace=True, p=None, **kw):
+        # extra keyword arguments of a refactored caller are accepted (they select nothing the scripted draw depends on)
         if isinstance(a, (int, np.integer)):
             if self.choice_script:
                 v = self.choice_script.pop(0)
@@ -379,6 +386,11 @@ def check_assignment(ctx, res, drv, solver_cls):
             if isinstance(out, Exception):
                 res.violation("ea:raised", "get_emission_assignment returns an assignment", input=inp, impl=repr(out)[:200])
                 continue
+            try:
+                out = list(out)
+            except TypeError:  # not a sequence at all
+                res.violation("ea:bound", "every photon is assigned an existing emitter (assignment[i] < n_emitter), one entry per photon", input=inp, impl=repr(out)[:200])
+                continue
             if len(out) != n_p or any((not isinstance(x, (int, np.integer))) or x < 0 or x >= n_e for x in out):
                 res.violation("ea:bound", "every photon is assigned an existing emitter (assignment[i] < n_emitter), one entry per photon", input=inp, impl=str(out))
                 continue
@@ -401,11 +413,16 @@ def check_initialization(ctx, res, drv, rs):
     for _ in range(n_cases):
         n_p = ctx.rng.randint(1, 8)
         n_e = ctx.rng.randint(1, min(n_p, 4))
-        solver = make_solver(n_p, n_e)
-        patch = RngPatch(rs)
-        with patch:
-            ea = solver.get_emission_assignment(n_p, n_e)
-            ma = solver.get_measurement_assignment(n_p, n_e)
+        try:
+            solver = make_solver(n_p, n_e)
+            patch = RngPatch(rs)
+            with patch:
+                ea = solver.get_emission_assignment(n_p, n_e)
+                ma = solver.get_measurement_assignment(n_p, n_e)
+        except Exception as e:  # noqa: BLE001 — 1 <= n_emitter <= n_photon: the solver and its assignments exist
+            res.violation("init:assignment-raised", "the solver constructor / get_emission_assignment / get_measurement_assignment return on 1 <= n_emitter <= n_photon",
+                          input={"fn": "assignments", "np": n_p, "ne": n_e}, impl=repr(e)[:200])
+            continue
         inp = {"fn": "initialization", "ea": list(map(int, ea)), "ma": list(map(int, ma))}
         try:
             circ = solver.initialization(ea, ma)
@@ -435,18 +452,24 @@ def start_circuits(ctx, res, rs, n_each):
     for _ in range(n_each):
         n_p = ctx.rng.randint(1, 8)
         n_e = ctx.rng.randint(1, min(n_p, 4))
-        solver = make_solver(n_p, n_e)
-        with RngPatch(rs):
-            ea = solver.get_emission_assignment(n_p, n_e)
-            ma = solver.get_measurement_assignment(n_p, n_e)
-        out.append((f"init:{ea}:{ma}", solver, solver.initialization(ea, ma)))
+        try:
+            solver = make_solver(n_p, n_e)
+            with RngPatch(rs):
+                ea = solver.get_emission_assignment(n_p, n_e)
+                ma = solver.get_measurement_assignment(n_p, n_e)
+            out.append((f"init:{ea}:{ma}", solver, solver.initialization(ea, ma)))
+        except Exception as e:  # noqa: BLE001 — reported, not a harness crash (check_initialization covers the same calls with an oracle)
+            res.violation("init:raised", "initialization builds a circuit", input={"fn": "start_circuits", "np": n_p, "ne": n_e}, impl=repr(e)[:200])
     for _ in range(n_each):
         n = ctx.rng.randint(2, 8)
         g = random_connected_graph(ctx.rng, n)
         try:
             circ, n_e = trs_circuit(g)
-        except Exception as e:  # noqa: BLE001
+        except Exception as e:  # noqa: BLE001 — a connected target (no isolated vertex: D3 is excluded) has a circuit
             res.notes.append(f"TimeReversedSolver raised {type(e).__name__} on {sorted(g.edges())}")
+            res.count("errors", f"solver:time-reversed:raises:{err_class(e)}")
+            res.violation(f"solver:time-reversed:raises:{err_class(e)}", "TimeReversedSolver returns a circuit for every connected target graph",
+                          input={"fn": "TimeReversedSolver", "edges": sorted(g.edges()), "n": n}, impl=f"{type(e).__name__}: {e}"[:300])
             continue
         res.evaluations += 1
         inp = {"fn": "TimeReversedSolver", "edges": sorted(g.edges()), "n": n}
@@ -463,7 +486,12 @@ def check_cnot_helpers(res, drv, solver, circuit, tag):
     enc = wu.encode(snap)
     for tname, fn in (("add_emitter_cnot", solver._select_possible_cnot_position),
                       ("add_measurement_cnot_and_reset", solver._select_possible_measurement_position)):
-        impl = sorted(wu.edge_token(snap, a) + "+" + wu.edge_token(snap, b) for a, b in fn(circuit))
+        try:
+            pairs = list(fn(circuit))
+        except Exception as e:  # noqa: BLE001 — the candidate helpers are total on valid circuits (the model's are)
+            res.exact_break("cands:" + tname + ":raises:" + err_class(e), input={"before": enc, "start": tag}, impl=repr(e)[:300], model="a candidate list")
+            continue
+        impl = sorted(wu.edge_token(snap, a) + "+" + wu.edge_token(snap, b) for a, b in pairs)
         r = drv.ask(f"evo.cands t={tname} {enc}")
         model = sorted([] if r.get("cands", "-") == "-" else r["cands"].split(","))
         res.evaluations += 1
@@ -554,14 +582,16 @@ def check_solver_runs(ctx, res, log, rs):
         comp = StabilizerCompiler()
         comp.measurement_determinism = 1
         setting = EvolutionarySolverSetting(n_hof=3, n_stop=6 if ctx.quick else 15, n_pop=4 if ctx.quick else 8)
-        state = {"anchors": {}}
+        state = {"anchors": {}, "moves": 0}
 
         def wrap(f):
-            def run(circuit, *a, **kw):
+            def run(*a, **kw):
+                circuit = a[0] if a else kw.get("circuit")  # the arguments themselves are forwarded exactly as given
+                state["moves"] += 1
                 before = wu.snapshot(circuit)
                 anchors = state["anchors"].setdefault(id(circuit), wu.fixed_anchor(circuit, initial=True))
                 mark = len(patch.calls)
-                out = f(circuit, *a, **kw)
+                out = f(*a, **kw)
                 inp = {"before": wu.encode(before), "t": f.__name__, "start": "solve()"}
                 if oracle(res, circuit, anchors, f"move:{f.__name__}", inp):
                     log.add(before, f.__name__, wu.snapshot(circuit), patch.calls[mark:], "solve()")
@@ -579,10 +609,20 @@ def check_solver_runs(ctx, res, log, rs):
                 warnings.simplefilter("ignore")
                 with patch:
                     solver.solve()
-        except Exception as e:  # noqa: BLE001
+        except Exception as e:  # noqa: BLE001 — a connected target, 1 <= n_emitter, n_hof <= n_pop: solve() has a result
             res.notes.append(f"solve() raised {type(e).__name__}: {e} (hybrid={hybrid}, edges={sorted(g.edges())})"[:300])
+            res.count("errors", f"solver:solve:raises:{err_class(e)}")
+            res.violation(f"solver:solve:raises:{err_class(e)}", "solve() of the evolutionary solvers terminates with a hall of fame on a well-formed configuration",
+                          input={"fn": "HybridEvolutionarySolver" if hybrid else "EvolutionarySolver", "edges": sorted(g.edges()), "n": n},
+                          impl=f"{type(e).__name__}: {e}"[:300])
             continue
         res.traces_validated += 1
+        if state["moves"] == 0:
+            # the moves of solve() are observed through np.random.choice over the transformation list: a solver that no longer draws
+            # them there would run unobserved and this stream would compare nothing
+            res.exact_break("coverage collapsed: solve() moves observed", input={"fn": type(solver).__name__, "edges": sorted(g.edges())},
+                            impl="solve() returned but no transformation was drawn through np.random.choice", model="every generation applies moves")
+        res.extra["solve_moves_observed"] = res.extra.get("solve_moves_observed", 0) + state["moves"]
         for score, circ in solver.hof:
             res.evaluations += 1
             oracle(res, circ, None, "solver:hof", {"fn": type(solver).__name__, "edges": sorted(g.edges())})
@@ -592,11 +632,14 @@ def check_alternate_target(ctx, res):
     """AlternateTargetSolver outputs through the oracle (no model involved)"""
     try:
         from graphiq.solvers.alternate_target_solver import AlternateTargetSolver, AlternateTargetSolverSetting
-    except Exception as e:  # noqa: BLE001
+    except Exception as e:  # noqa: BLE001 — the module exists in the repository: not importable = the whole stream would be skipped
         res.notes.append(f"alternate_target_solver not importable: {e}")
+        res.exact_break("alternate_target_solver:import:raises:" + err_class(e), input={"fn": "import graphiq.solvers.alternate_target_solver"},
+                        impl=repr(e)[:300], model="the module imports")
         return
     n_runs = 3 if ctx.quick else 15
     done = 0
+    solved = 0
     for _ in range(n_runs):
         n = ctx.rng.randint(3, 5)
         g = random_connected_graph(ctx.rng, n)
@@ -608,14 +651,21 @@ def check_alternate_target(ctx, res):
             if not circuits and hasattr(solver, "result"):
                 rr = solver.result
                 circuits = list(getattr(rr, "_data", {}).get("circuit", [])) if hasattr(rr, "_data") else []
-        except Exception as e:  # noqa: BLE001
+        except Exception as e:  # noqa: BLE001 — connected target on 3..5 vertices, n_iso_graphs=2 <= n!: the solver has a result
             res.notes.append(f"AlternateTargetSolver raised {type(e).__name__}: {e}"[:200])
+            res.count("errors", f"solver:alternate-target:raises:{err_class(e)}")
+            res.violation(f"solver:alternate-target:raises:{err_class(e)}", "AlternateTargetSolver.solve() returns circuits for a connected target graph",
+                          input={"fn": "AlternateTargetSolver", "edges": sorted(g.edges())}, impl=f"{type(e).__name__}: {e}"[:300])
             continue
+        solved += 1
         for circ in circuits:
             res.evaluations += 1
             done += 1
             oracle(res, circ, None, "solver:alternate-target", {"fn": "AlternateTargetSolver", "edges": sorted(g.edges())})
     res.extra["alternate_target_circuits_checked"] = done
+    if n_runs and done == 0:
+        # every run was skipped or the result object no longer exposes its circuits: the stream checked nothing
+        coverage_floor(res, "alternate-target:circuits", done, n_runs, what="solver runs with at least one circuit")
 
 
 # ---------------------------------------------------------------------------------------------------------------- builds
@@ -706,18 +756,23 @@ class BuildObserver:
             self._saved.append((TimeReversedSolver, name, orig))
 
             def make(orig):
-                def wrapped(solver, circuit, *a, **k):
-                    return obs.around(circuit, lambda: orig(solver, circuit, *a, **k))
+                def wrapped(solver, *a, **k):
+                    # arguments are forwarded exactly as given; the circuit is the first positional argument or the `circuit` keyword
+                    circuit = a[0] if a else k.get("circuit")
+                    if circuit is None:
+                        return orig(solver, *a, **k)
+                    return obs.around(circuit, lambda: orig(solver, *a, **k))
                 return wrapped
 
             setattr(TimeReversedSolver, name, make(orig))
         orig_add = CircuitDAG.add
         self._saved.append((CircuitDAG, "add", orig_add))
 
-        def add(circ, op):
+        def add(circ, *a, **k):
+            # the arguments of CircuitDAG.add (positional or keyword, extra ones of a refactored signature) are handed through untouched
             if id(circ) in obs.hist:
-                return obs.around(circ, lambda: orig_add(circ, op))
-            return orig_add(circ, op)
+                return obs.around(circ, lambda: orig_add(circ, *a, **k))
+            return orig_add(circ, *a, **k)
 
         CircuitDAG.add = add
         return self
@@ -739,6 +794,7 @@ def check_builds(ctx, res, drv):
     n_trs = 12 if ctx.quick else 120
     n_alt = 2 if ctx.quick else 10
     finals = []  # (tag, history entry, final circuit)
+    n_built = 0
     for _ in range(n_trs):
         n = ctx.rng.randint(2, 7 if ctx.quick else 9)
         g = random_connected_graph(ctx.rng, n)
@@ -749,14 +805,18 @@ def check_builds(ctx, res, drv):
             try:
                 s = TimeReversedSolver(target=target, metric=Infidelity(target), compiler=comp)
                 s.solve()
-            except Exception as e:  # noqa: BLE001
+            except Exception as e:  # noqa: BLE001 — a connected target has a circuit
                 res.notes.append(f"TimeReversedSolver raised {type(e).__name__} on {sorted(g.edges())}"[:200])
+                res.count("errors", f"solver:time-reversed:raises:{err_class(e)}")
+                res.violation(f"solver:time-reversed:raises:{err_class(e)}", "TimeReversedSolver returns a circuit for every connected target graph",
+                              input={"fn": "TimeReversedSolver", "edges": sorted(g.edges()), "n": n}, impl=f"{type(e).__name__}: {e}"[:300])
                 continue
+        n_built += 1
         for ent in obs.hist.values():
             finals.append((f"trs:{sorted(g.edges())}", ent, s.result[1]))
     try:
         from graphiq.solvers.alternate_target_solver import AlternateTargetSolver, AlternateTargetSolverSetting
-    except Exception:  # noqa: BLE001
+    except Exception:  # noqa: BLE001 — reported by check_alternate_target (exact_break …:import:raises)
         AlternateTargetSolver = None
     if AlternateTargetSolver is not None:
         for _ in range(n_alt):
@@ -769,6 +829,9 @@ def check_builds(ctx, res, drv):
                     solver.solve()
                 except Exception as e:  # noqa: BLE001
                     res.notes.append(f"AlternateTargetSolver raised {type(e).__name__}: {e}"[:200])
+                    res.count("errors", f"solver:alternate-target:raises:{err_class(e)}")
+                    res.violation(f"solver:alternate-target:raises:{err_class(e)}", "AlternateTargetSolver.solve() returns circuits for a connected target graph",
+                                  input={"fn": "AlternateTargetSolver", "edges": sorted(g.edges())}, impl=f"{type(e).__name__}: {e}"[:300])
                     continue
             for ent in obs.hist.values():
                 finals.append((f"alt:{sorted(g.edges())}", ent, ent["circ"]))
@@ -793,6 +856,9 @@ def check_builds(ctx, res, drv):
         else:
             res.traces_validated += 1
     res.extra["construction_histories_checked"] = len(keep)
+    # every TimeReversedSolver run must have been observed through at least one circuit-editing helper: if the helpers were renamed /
+    # bypassed the observer records nothing and the stream would compare nothing
+    coverage_floor(res, "builds:histories", len([1 for tag, _, _ in finals if tag.startswith("trs:")]), n_built, what="TimeReversedSolver constructions (observed through the editing helpers)")
 
 
 # ---------------------------------------------------------------------------------------------------------------- entry
@@ -806,28 +872,37 @@ def run(ctx):
     table = ops_table()
     from graphiq.solvers.evolutionary_solver import EvolutionarySolver
 
+    # every stream runs under common.impl_guard: an exception of graphiq on a valid generated input that no call site handles is
+    # reported (exit 1), it no longer leaves run() as a harness crash (exit 2)
     try:
         check_table(res, drv, table)
-        check_assignment(ctx, res, drv, EvolutionarySolver)
-        check_initialization(ctx, res, drv, rs)
+        with guard(res, "get_emission_assignment", promise=True):
+            check_assignment(ctx, res, drv, EvolutionarySolver)
+        with guard(res, "initialization", promise=True):
+            check_initialization(ctx, res, drv, rs)
         log = MoveLog(res, table)
-        starts = start_circuits(ctx, res, rs, 6 if ctx.quick else 12)
+        starts = []
+        with guard(res, "start-circuits", promise=True):
+            starts = start_circuits(ctx, res, rs, 6 if ctx.quick else 12)
+        coverage_floor(res, "start-circuits", len(starts), 2 * (6 if ctx.quick else 12), what="start circuits (initialization + TimeReversedSolver)")
         t_budget = 80 if ctx.quick else 540
         t0 = time.time()
         for k, (tag, solver, circ) in enumerate(starts):
             # quick: histories of 200 moves; thorough: two histories of 5000 moves, the others 1000
             per = 200 if ctx.quick else (5000 if k in (0, len(starts) // 2) else 600)
-            check_cnot_helpers(res, drv, solver, circ, tag)
-            ok = run_history(ctx, res, log, solver, circ, per, rs, tag)
-            log.flush(drv)
-            if ok:
-                check_cnot_helpers(res, drv, solver, circ, tag + "+history")
-                res.traces_validated += 1
+            with guard(res, "history", promise=True, input={"start": tag}):
+                check_cnot_helpers(res, drv, solver, circ, tag)
+                ok = run_history(ctx, res, log, solver, circ, per, rs, tag)
+                log.flush(drv)
+                if ok:
+                    check_cnot_helpers(res, drv, solver, circ, tag + "+history")
+                    res.traces_validated += 1
             if res.violations or time.time() - t0 > t_budget:
                 break
         # hybrid randomize_circuit
         if not res.violations:
-            check_solver_runs(ctx, res, log, rs)
+            with guard(res, "solver:solve", promise=True):
+                check_solver_runs(ctx, res, log, rs)
             log.flush(drv)
         # exhaustive candidate enumeration on small solver circuits
         if not res.violations:
@@ -841,26 +916,32 @@ def run(ctx):
                     break
                 try:
                     circ, n_e = trs_circuit(g)
-                except Exception:  # noqa: BLE001
+                except Exception as e:  # noqa: BLE001 — path / complete / atlas graphs are connected: the solver has a circuit
+                    res.violation(f"solver:time-reversed:raises:{err_class(e)}", "TimeReversedSolver returns a circuit for every connected target graph",
+                                  input={"fn": "TimeReversedSolver", "edges": sorted(g.edges()), "n": g.number_of_nodes()}, impl=f"{type(e).__name__}: {e}"[:300])
                     continue
-                exhaustive_candidates(ctx, res, drv, table, make_solver(g.number_of_nodes(), n_e), circ, f"trs:{sorted(g.edges())}",
-                                      1 if ctx.quick else 2, rs, [0, 5] if ctx.quick else [0, 5, 23])
-                done_exh += 1
-            for (n_p, n_e) in ([(2, 1), (2, 2)] if ctx.quick else [(1, 1), (2, 1), (2, 2), (3, 2), (3, 3)]):
-                solver = make_solver(n_p, n_e)
-                for ea in itertools.product(range(n_e), repeat=n_p):
-                    if ea[0] != 0 or time.time() - t_exh > budget_exh:
-                        continue
-                    ma = [ctx.rng.randrange(n_p) for _ in range(n_e)]
-                    circ = solver.initialization(list(ea), ma)
-                    exhaustive_candidates(ctx, res, drv, table, solver, circ, f"init:{ea}:{ma}", 1 if ctx.quick else 2, rs, [0, 13])
+                with guard(res, "exhaustive-candidates", promise=True, input={"start": f"trs:{sorted(g.edges())}"}):
+                    exhaustive_candidates(ctx, res, drv, table, make_solver(g.number_of_nodes(), n_e), circ, f"trs:{sorted(g.edges())}",
+                                          1 if ctx.quick else 2, rs, [0, 5] if ctx.quick else [0, 5, 23])
                     done_exh += 1
+            for (n_p, n_e) in ([(2, 1), (2, 2)] if ctx.quick else [(1, 1), (2, 1), (2, 2), (3, 2), (3, 3)]):
+                with guard(res, "exhaustive-candidates", promise=True, input={"start": f"init:np={n_p}:ne={n_e}"}):
+                    solver = make_solver(n_p, n_e)
+                    for ea in itertools.product(range(n_e), repeat=n_p):
+                        if ea[0] != 0 or time.time() - t_exh > budget_exh:
+                            continue
+                        ma = [ctx.rng.randrange(n_p) for _ in range(n_e)]
+                        circ = solver.initialization(list(ea), ma)
+                        exhaustive_candidates(ctx, res, drv, table, solver, circ, f"init:{ea}:{ma}", 1 if ctx.quick else 2, rs, [0, 13])
+                        done_exh += 1
             res.notes.append(f"exhaustive candidate enumeration ({1 if ctx.quick else 2} move(s) deep) completed on {done_exh} initial circuits "
                              f"({len(graphs)} solver graphs of <= {3 if ctx.quick else 4} vertices planned) within {budget_exh}s")
         if not res.violations:
-            check_builds(ctx, res, drv)
+            with guard(res, "builds", promise=True):
+                check_builds(ctx, res, drv)
         if not res.violations:
-            check_alternate_target(ctx, res)
+            with guard(res, "solver:alternate-target", promise=True):
+                check_alternate_target(ctx, res)
     finally:
         res.extra["driver_lines"] = drv.n_lines
         drv.close()
